@@ -115,7 +115,7 @@ class Job:
 
     def __init__(self, name, harness, defines, cbmc_srcs, native_srcs, backend="z3", unwind=40,
                  timeout=300, config="default", extra=(), facet="", unwindset=(), expect_fail=None,
-                 shape=None, note="", instrument=(), branch_srcs=()):
+                 shape=None, note="", instrument=(), branch_srcs=(), instrument_defs=()):
         self.name = name
         self.harness = os.path.join(HARN, harness)
         self.defines = dict(defines)
@@ -136,6 +136,7 @@ class Job:
         self.instrument = [(a, tuple(b)) for a, b in instrument]
         # library sources compiled by goto-cc and instrumented with `goto-instrument --branch ct_obs` (C07)
         self.branch_srcs = list(branch_srcs)
+        self.instrument_defs = list(instrument_defs)      # extra -D options for the instrumented TUs only
 
     def dflags(self):
         return ["-D%s=%s" % (k, v) if v is not None else "-D%s" % k for k, v in sorted(self.defines.items())]
@@ -201,7 +202,7 @@ def instrumented_gb(job, src, funcs):
         if key in _gb_cache:
             return _gb_cache[key]
         base = os.path.join(scratch(), "gb-%d" % len(_gb_cache))
-        rc, out, _ = run_proc(["goto-cc", "-c"] + job.incflags() + job.dflags() + [src, "-o", base + ".gb"], 120)
+        rc, out, _ = run_proc(["goto-cc", "-c"] + job.incflags() + job.dflags() + job.instrument_defs + [src, "-o", base + ".gb"], 120)
         if rc != 0:
             raise RuntimeError("goto-cc failed: " + out[-500:])
         cmd = ["goto-instrument"]
@@ -449,7 +450,7 @@ def native_build(job):
     for i, (src, funcs) in enumerate(job.instrument):
         # same substitution natively: the callees become weak so the harness's stubs win at link time
         o = "%s-w%d.o" % (exe, i)
-        rc, out, _ = run_proc(["gcc", "-O0", "-fno-inline", "-w", "-std=gnu99", "-c"] + job.incflags() + job.dflags() + [src, "-o", o], 120)
+        rc, out, _ = run_proc(["gcc", "-O0", "-fno-inline", "-w", "-std=gnu99", "-c"] + job.incflags() + job.dflags() + job.instrument_defs + [src, "-o", o], 120)
         wk = []
         for f in funcs:
             wk += ["-W", f]
@@ -565,7 +566,14 @@ def run_property(prop, tier, jobs, meta, only=None):
     nconfirm = 0
     known_hits = []
     inconclusive = []
-    for r in sorted(results, key=lambda r: (r.get("wall_s", 0), r["name"])):
+    def replay_order(r):
+        # replay the smallest shapes first: with empty / short messages a counterexample is least likely to depend on
+        # the interpretation of the uninterpreted permutation (e.g. SIV with an empty plaintext)
+        sh = r.get("shape") or {}
+        size = sum(int(v) for k, v in sh.items() if k in ("MLEN", "ADLEN", "N", "SIZE", "LEN", "OUTLEN", "REQ", "PLEN") and str(v).isdigit())
+        return (size, r.get("wall_s", 0), r["name"])
+
+    for r in sorted(results, key=replay_order):
         if r["status"] == "PASS":
             continue
         job = byname[r["name"]]
@@ -578,7 +586,7 @@ def run_property(prop, tier, jobs, meta, only=None):
                 continue
             if job.kind == "cbmc":
                 nrep = sum(1 for _, i in violations if i.get("replayed"))
-                if nrep >= 2 or nconfirm >= 6:
+                if nrep >= 2 or nconfirm >= 10:
                     # enough counterexamples replayed; the remaining failed queries are listed, not replayed
                     info = {"reproduced": nrep > 0, "replayed": False, "replay": violations[0][1]["replay"] if violations else "",
                             "assert": "%s %s" % asserts[0], "how": "query failed; not replayed (other counterexamples of this run were)"}
